@@ -6,28 +6,39 @@
 (*                                                                         *)
 (* Bounded instances of the lemmas of SeqArith.tla about Offset (the       *)
 (* transcription of `seq_nr_offset`) against Dist (ideal signed modular    *)
-(* distance):                                                              *)
+(* distance).                                                              *)
 (*                                                                         *)
-(*   MCSeq_s64 / MCSeq_s256  scaled modulus (M, W) = (64, 4), (256, 16):   *)
-(*        ALL pairs (and all triples within a window), every lemma a named *)
-(*        invariant of its own.                                            *)
-(*   MCSeq_quick  the REAL constants M = 65536, W = 1024 (hard-wired in the  *)
-(*        cfg), a boundary-dense subset of ~7k a's, each against every b   *)
-(*        whose true distance is within the tolerance (2049 values) plus   *)
-(*        `Band` values just outside on both sides plus far / antipodal    *)
-(*        b's: OffsetAgreesCore (OffsetAgrees + ClosedForm in one pass);   *)
-(*        AllLemmas (every lemma incl. DependsOnDLt) on the ~1200 `Heavy`  *)
-(*        a's; NegativeWitness; EmitAll writes the table and the cases.    *)
-(*   MCSeq (thorough)  the same for ALL 65536 a's, DependsOnDLt on every   *)
-(*        pair (CoreDLt = TRUE).  Run without -coverage (factor > 8).      *)
+(* The tolerance: W must be at least the largest window in packets the     *)
+(* configuration allows; W = M/2 - 1 = 32767 is the largest tolerance      *)
+(* 16-bit arithmetic admits (the lemmas need 2W < M) and is what the real  *)
+(* instances hard-wire.  DocW = 1024 is the FORMER tolerance, the defect   *)
+(* D8; it is kept for documentation (NegativeWitness prints its smallest   *)
+(* misordered pair) and as a second table for `seq_nr_offset(a, b, 1024)`  *)
+(* as a pure function.                                                     *)
 (*                                                                         *)
-(* All 65536 x 65536 pairs are out of TLC's reach; the complete function   *)
-(* is emitted as a table over (d, lt) = ((a - b) % M, a < b) instead       *)
-(* (Table) and the implementation is compared with the table on all 2^32   *)
-(* pairs by unit_seq `table`.  That Offset depends on (d, lt) only is the  *)
-(* lemma DependsOnDLt, checked here on all pairs of the scaled instances   *)
-(* and on the sample of the real one (and for all pairs symbolically by    *)
-(* Apalache, SeqArithApa.tla).                                             *)
+(*   MCSeq_h64 / MCSeq_h256  scaled, tolerance M/2 - 1: (M, W) = (64, 31), *)
+(*        (256, 127): ALL pairs, every lemma a named invariant of its own. *)
+(*   MCSeq_s64 / MCSeq_s256  scaled, SMALL tolerance (64, 4), (256, 16):   *)
+(*        the same; these instances have misordered pairs (the class of    *)
+(*        D8) and NegativeWitness prints the smallest.                     *)
+(*   MCSeq_quick  the REAL constants M = 65536, W = 32767: a boundary-     *)
+(*        dense subset of ~7k a's, each against the b's at a boundary-     *)
+(*        dense set of signed distances (0..Band, around DocW, around the  *)
+(*        antipode, powers of two +-1, multiples of 1024 +-1; both signs)  *)
+(*        plus fixed far b's: OffsetAgreesCore on all of them, AllLemmas   *)
+(*        (every lemma, also for the tolerance DocW) on the `Heavy` a's;   *)
+(*        EmitAll writes the tables and the replay cases.                  *)
+(*   MCSeq (thorough)  the same for ALL 65536 a's with a wider Band and    *)
+(*        DependsOnDLt on every pair.  Run without -coverage (factor > 8). *)
+(*                                                                         *)
+(* With W = M/2 - 1 "every b within tolerance" is the whole ring, so all   *)
+(* 65536 x 65536 pairs are out of TLC's reach; the complete function is    *)
+(* emitted as a table over (d, lt) = ((a - b) % M, a < b) instead (Table)  *)
+(* and the implementation is compared with the table on all 2^32 pairs by  *)
+(* unit_seq `table`.  That Offset depends on (d, lt) only is the lemma     *)
+(* DependsOnDLt, checked here on all pairs of the scaled instances and on  *)
+(* the sample of the real one, and for all pairs symbolically by Apalache  *)
+(* (SeqArithApa.tla) together with every other lemma.                      *)
 (*                                                                         *)
 (* The state variable a is the sequence number whose pairs are checked.    *)
 (* Initial states are `Chunks` roots (a = -1 - c); the successors of root  *)
@@ -39,23 +50,22 @@ EXTENDS SeqArith, Sequences, FiniteSets, TLC, TLCExt, Json, IOUtils, SequencesEx
 CONSTANTS
     M,        \* modulus
     W,        \* wrap tolerance
-    Band,     \* how many distances beyond the tolerance are checked on each side
+    DocW,     \* the former tolerance (documentation of D8, second table); = W in the small-tolerance instances
+    AllPairs, \* TRUE: every b for every a (scaled instances)
+    Band,     \* width of the dense clusters of distances (real instances)
     Chunks,   \* number of root states
     ASel,     \* "all": every a in 0..M-1;  "dense": boundary-dense subset
     CoreDLt,  \* TRUE: OffsetAgreesCore also checks DependsOnDLt on every pair (FALSE: AllLemmas does, on the Heavy a's)
-    Emit      \* TRUE: write the (d, lt) table and the replay cases (env C09_TABLE, C09_CASES)
+    Emit      \* TRUE: write the (d, lt) tables and the replay cases (env C09_TABLE, C09_CASES)
 
 VARIABLE a
 
 H == M \div 2
-ASSUME M % 2 = 0 /\ W >= 1 /\ 2 * W < M /\ Chunks >= 1 /\ Band >= 0
-
-(* every b is enumerated when the band covers the whole ring *)
-AllB == 2 * (W + Band) + 1 >= M
+ASSUME M % 2 = 0 /\ W >= 1 /\ 2 * W < M /\ DocW >= 1 /\ DocW <= W /\ Chunks >= 1 /\ Band >= 0
 
 (* quick tier: a's around 0, around the wrap, around the antipode of 0, and around every multiple of 1024 *)
 Dense ==
-    { x \in (0..(2 * W + 150)) \cup ((M - 2 * W - 150)..(M - 1)) \cup ((H - W - 180)..(H + W + 180))
+    { x \in (0..(2 * DocW + 150)) \cup ((M - 2 * DocW - 150)..(M - 1)) \cup ((H - DocW - 180)..(H + DocW + 180))
             \cup { k * 1024 + j : k \in 0..(M \div 1024), j \in -2..2 } : x >= 0 /\ x < M }
 
 ChunkOf(c) ==
@@ -67,16 +77,21 @@ Next == a < 0 /\ a' \in ChunkOf(-1 - a)
 Spec == Init /\ [][Next]_a
 
 ---------------------------------------------------------------------------
-(* the b's paired with a: everything within tolerance + Band, and far ones *)
-Ks == -(W + Band)..(W + Band)
-Far(x) == {0, 1, W, W + 1, H - 1, H, H + 1, M - W - 1, M - W, M - 1}
-          \cup { (x + H + j) % M : j \in -2..2 }
-          \cup { (x + s * (H - W) + j) % M : s \in {-1, 1}, j \in -1..1 }
+(* the b's paired with a (real instances): b = (a - k) % M for the signed   *)
+(* distances k of Ks, and fixed far ones                                    *)
+Pow2 == { 2, 4, 8, 16, 32, 64, 128, 256, 512, 1024, 2048, 4096, 8192, 16384, 32768 }
+DPos ==
+    { d \in (0..Band) \cup ((DocW - Band)..(DocW + Band)) \cup ((H - Band)..H)
+            \cup { p + e : p \in Pow2, e \in {-1, 0, 1} }
+            \cup { 1024 * k + e : k \in 1..31, e \in {-1, 0, 1} } : d >= 0 /\ d <= H }
+Ks == DPos \cup { -d : d \in DPos }
+Far(x) == {0, 1, DocW, DocW + 1, W, W + 1, H - 1, H, H + 1, M - W - 1, M - W, M - DocW - 1, M - DocW, M - 1}
 
 ForAllB(x, P(_, _)) ==
-    IF AllB THEN \A b \in 0..(M - 1) : P(x, b)
+    IF AllPairs THEN \A b \in 0..(M - 1) : P(x, b)
     ELSE /\ \A k \in Ks : P(x, (x - k) % M)
          /\ \A b \in Far(x) : P(x, b)
+PairsPerA == IF AllPairs THEN M ELSE Cardinality(Ks) + Cardinality(Far(0))
 
 Diag(name, x, b) ==
     Print(<<"LEMMA FAILS", name, [a |-> x, b |-> b, offset |-> Offset(x, b, M, W), offset_ba |-> Offset(b, x, M, W),
@@ -89,25 +104,28 @@ P_Agrees(x, b)    == OffsetAgreesAt(x, b, M, W)          \/ Diag("OffsetAgrees",
 P_Closed(x, b)    == OffsetClosedFormAt(x, b, M, W)      \/ Diag("ClosedForm", x, b)
 (* Offset is a function of (a - b) % M and a < b: licenses the table *)
 P_DLt(x, b)       == OffsetDependsOnDLtAt(x, b, M, W)    \/ Diag("DependsOnDLt", x, b)
-P_Antisym(x, b)   == OffsetAntisymAt(x, b, M, W)       \/ Diag("Antisym", x, b)
+P_Antisym(x, b)   == OffsetAntisymAt(x, b, M, W)         \/ Diag("Antisym", x, b)
 P_Zero(x, b)      == OffsetZeroIffEqualAt(x, b, M, W)    \/ Diag("ZeroIffEqual", x, b)
 (* "Ordering ... agree[s] with true modular distance" within the tolerance *)
 P_Ord(x, b)       == OrdAgreesAt(x, b, M, W)             \/ Diag("OrdAgrees", x, b)
 (* negative facts *)
 P_Plain(x, b)     == OrdIsPlainBeyondAt(x, b, M, W)      \/ Diag("OrdIsPlainBeyond", x, b)
 P_Inverted(x, b)  == OrdInvertedAcrossWrapAt(x, b, M, W) \/ Diag("OrdInvertedAcrossWrap", x, b)
+(* with the largest tolerance no pair with an unambiguous modular order is misordered *)
+P_Total(x, b)     == (2 * (W + 1) = M => ~OrdWrongAt(x, b, M, W)) \/ Diag("OrdTotalAtMaxTolerance", x, b)
 
-OffsetAgrees          == a >= 0 => ForAllB(a, P_Agrees)
-ClosedForm            == a >= 0 => ForAllB(a, P_Closed)
-DependsOnDLt          == a >= 0 => ForAllB(a, P_DLt)
-Antisym               == a >= 0 => ForAllB(a, P_Antisym)
-ZeroIffEqual          == a >= 0 => ForAllB(a, P_Zero)
-OrdAgrees             == a >= 0 => ForAllB(a, P_Ord)
-OrdIsPlainBeyond      == a >= 0 => ForAllB(a, P_Plain)
-OrdInvertedAcrossWrap == a >= 0 => ForAllB(a, P_Inverted)
+OffsetAgrees           == a >= 0 => ForAllB(a, P_Agrees)
+ClosedForm             == a >= 0 => ForAllB(a, P_Closed)
+DependsOnDLt           == a >= 0 => ForAllB(a, P_DLt)
+Antisym                == a >= 0 => ForAllB(a, P_Antisym)
+ZeroIffEqual           == a >= 0 => ForAllB(a, P_Zero)
+OrdAgrees              == a >= 0 => ForAllB(a, P_Ord)
+OrdIsPlainBeyond       == a >= 0 => ForAllB(a, P_Plain)
+OrdInvertedAcrossWrap  == a >= 0 => ForAllB(a, P_Inverted)
+OrdTotalAtMaxTolerance == a >= 0 => ForAllB(a, P_Total)
 
 (* OffsetAgrees + what Offset is outside the tolerance + the table licence in one pass, each *)
-(* function evaluated once per pair: the invariant of the real instance over ALL a          *)
+(* function evaluated once per pair: the invariant of the real instances over all their a's  *)
 P_Core(x, b) ==
     LET o  == Offset(x, b, M, W)
         t  == Dist(x, b, M)
@@ -120,7 +138,7 @@ P_Forms(x, b) == L_OffsetAgrees(Offset(x, b, M, W), Dist(x, b, M), W) <=> Offset
 FormsCoincide == a >= 0 => ForAllB(a, P_Forms)
 
 (* the same lemma bodies (SeqArith L_...) in one pass over the b's, each function evaluated *)
-(* once per pair (real instance: the cost is the enumeration)                              *)
+(* once per pair; and the lemmas that license the second table (tolerance DocW)             *)
 P_All(x, b) ==
     LET o  == Offset(x, b, M, W)
         o2 == Offset(b, x, M, W)
@@ -130,14 +148,17 @@ P_All(x, b) ==
            /\ L_ClosedForm(x, b, o, t, W) /\ L_DependsOnDLt(o, r) /\ L_Antisym(o, o2)
            /\ L_ZeroIffEqual(x, b, o) /\ L_OrdAgrees(o, t, W)
            /\ L_OrdIsPlainBeyond(x, b, o, t, W) /\ L_OrdInvertedAcrossWrap(x, b, o, t, M, W)
+           /\ (2 * (W + 1) = M => ~OrdWrongAt(x, b, M, W))
+           /\ (DocW # W => /\ OffsetAgreesAt(x, b, M, DocW) /\ OffsetClosedFormAt(x, b, M, DocW)
+                           /\ OffsetDependsOnDLtAt(x, b, M, DocW) /\ OffsetAntisymAt(x, b, M, DocW))
         \/ Diag("AllLemmas", x, b)
-(* real instance: on the a's within 100 of 0 / W / H-W / H / H+W / M-W (mod M); scaled: on every a *)
+(* real instances: on the a's within 100 of 0 / DocW / H-DocW / H / H+DocW / M-DocW (mod M); scaled: on every a *)
 CDist(x, c) == LET d == (x - c) % M IN IF d > H THEN M - d ELSE d
-Heavy(x) == AllB \/ \E c \in {0, W, H - W, H, H + W, M - W} : CDist(x, c) <= 100
+Heavy(x) == AllPairs \/ \E c \in {0, DocW, H - DocW, H, H + DocW, M - DocW} : CDist(x, c) <= 100
 AllLemmas == (a >= 0 /\ Heavy(a)) => ForAllB(a, P_All)
 
 (* wrapping add / subtract and the offset back to the start *)
-KsAdd == IF AllB THEN 0..(M - 1) ELSE {0, 1, 2, W - 1, W, W + 1, H, M - 1}
+KsAdd == IF AllPairs THEN 0..(M - 1) ELSE {0, 1, 2, DocW - 1, DocW, DocW + 1, W - 1, W, W + 1, H, H + 1, M - 1}
 AddSubWrap ==
     a >= 0 => \A k \in KsAdd :
         /\ Add(a, k, M) \in 0..(M - 1) /\ SeqSubK(a, k, M) \in 0..(M - 1)
@@ -145,52 +166,74 @@ AddSubWrap ==
         /\ Dist(Add(a, k, M), a, M) = (IF k >= H THEN k - M ELSE k)
         /\ (AddThenOffsetAt(a, k, M, W) \/ Diag("AddThenOffset", a, k))
 
-(* three numbers inside one window of W: the order is transitive (scaled instances only) *)
-Transitive ==
-    (a >= 0 /\ M <= 256) =>
-        LET Win == { (a + k) % M : k \in (-W)..W } IN
-        \A b \in Win, c \in Win : OrdTransitiveAt(a, b, c, M, W) \/ Diag("Transitive", b, c)
+(* every two numbers of the window [a, a + W] compare like their positions in it *)
+KsWin == IF AllPairs THEN 0..W ELSE {0, 1, 2, DocW - 1, DocW, DocW + 1, H \div 2, W - 2, W - 1, W}
+WindowOrder ==
+    a >= 0 => \A x \in KsWin, y \in KsWin : WindowOrderAt(a, x, y, M, W) \/ Diag("WindowOrder", x, y)
 
 ---------------------------------------------------------------------------
-(* NEGATIVE fact as a witness: the pair with the smallest true distance on  *)
-(* which the implementation's order contradicts the modular order.  By      *)
-(* OrdAgrees no such pair has |Dist| <= W; there is one at |Dist| = W + 1:  *)
-(* (a, b) = (0, M - W - 1): b is W + 1 BEHIND a, the code says a < b.       *)
-(* This is the root of the known defect D8: a window of more than W         *)
-(* packets breaks when it straddles the wrap.                               *)
-WrongB(x) == { b \in { (x - (W + 1)) % M, (x + W + 1) % M } : OrdWrongAt(x, b, M, W) }
-SmallestWrong ==
-    LET x == CHOOSE v \in 0..(M - 1) : WrongB(v) # {} /\ \A u \in 0..(v - 1) : WrongB(u) = {}
-        y == CHOOSE v \in WrongB(x) : \A u \in WrongB(x) : v <= u
-    IN  [a |-> x, b |-> y, dist |-> Dist(x, y, M), offset |-> Offset(x, y, M, W),
-         impl_says |-> IF Offset(x, y, M, W) < 0 THEN "a < b" ELSE "a > b",
-         modular |-> IF Dist(x, y, M) < 0 THEN "a < b" ELSE "a > b", M |-> M, W |-> W]
+(* NEGATIVE fact as a witness.                                              *)
+(* Tolerance w with 2 * (w + 1) < M: there are pairs on which the           *)
+(* implementation's order contradicts the modular order.  By OrdAgrees none *)
+(* has |Dist| <= w; there is one at |Dist| = w + 1: (a, b) = (0, M - w - 1): *)
+(* b is w + 1 BEHIND a, the code says a < b.  For the former tolerance      *)
+(* w = 1024 of the 16-bit arithmetic this was the defect D8: a window of    *)
+(* more than 1024 packets broke when it straddled the wrap.                 *)
+(* Tolerance W = M/2 - 1: the only distance beyond the tolerance is the     *)
+(* antipode |Dist| = M/2, whose modular order is ambiguous (Dist(a, b) =    *)
+(* Dist(b, a) = -M/2); Offset breaks the tie by the integer order and stays *)
+(* antisymmetric: Offset(0, M/2) = -M/2, Offset(M/2, 0) = +M/2.  No pair    *)
+(* with an unambiguous order is misordered (OrdTotalAtMaxTolerance).        *)
+WrongB(x, w) == { b \in { (x - (w + 1)) % M, (x + w + 1) % M } : OrdWrongAt(x, b, M, w) }
+SmallestWrong(w) ==
+    LET x == CHOOSE v \in 0..(M - 1) : WrongB(v, w) # {} /\ \A u \in 0..(v - 1) : WrongB(u, w) = {}
+        y == CHOOSE v \in WrongB(x, w) : \A u \in WrongB(x, w) : v <= u
+    IN  [a |-> x, b |-> y, dist |-> Dist(x, y, M), offset |-> Offset(x, y, M, w),
+         impl_says |-> IF Offset(x, y, M, w) < 0 THEN "a < b" ELSE "a > b",
+         modular |-> IF Dist(x, y, M) < 0 THEN "a < b" ELSE "a > b", M |-> M, W |-> w]
+WitnessOK(s, w) ==
+    /\ s.a = 0 /\ s.b = M - w - 1
+    /\ s.dist = w + 1 /\ s.offset = -(M - w - 1)
+    /\ s.impl_says # s.modular
+Antipodal ==
+    [a |-> 0, b |-> H, dist_ab |-> Dist(0, H, M), dist_ba |-> Dist(H, 0, M),
+     offset_ab |-> Offset(0, H, M, W), offset_ba |-> Offset(H, 0, M, W), M |-> M, W |-> W,
+     note |-> "only distance beyond the tolerance; modular order ambiguous; tie broken by integer order, antisymmetric"]
 NegativeWitness ==
     a = -1 =>
-        LET s == SmallestWrong IN
-        /\ s.a = 0 /\ s.b = M - W - 1
-        /\ s.dist = W + 1 /\ s.offset = -(M - W - 1)
-        /\ s.impl_says # s.modular
-        /\ PrintT(<<"NEGATIVE", ToJson(s)>>)
+        /\ IF 2 * (W + 1) < M
+             THEN LET s == SmallestWrong(W) IN WitnessOK(s, W) /\ PrintT(<<"NEGATIVE", ToJson(s)>>)
+             ELSE /\ \A x \in 0..(M - 1) : WrongB(x, W) = {}
+                  /\ Antipodal.dist_ab = -H /\ Antipodal.dist_ba = -H
+                  /\ Antipodal.offset_ab = -H /\ Antipodal.offset_ba = H
+                  /\ PrintT(<<"NEGATIVE", ToJson(Antipodal)>>)
+        /\ (DocW # W => LET s == SmallestWrong(DocW) IN WitnessOK(s, DocW) /\ PrintT(<<"NEGATIVE_OLD", ToJson(s)>>))
+        /\ PrintT(<<"PAIRS_PER_A", PairsPerA>>)
 
 ---------------------------------------------------------------------------
 (* spec -> impl: the complete function as a table over d = (a - b) % M and  *)
-(* lt = (a < b); index d + 1 (JSON arrays: index d).                        *)
+(* lt = (a < b); index d + 1 (JSON arrays: index d).  `extra`: the same for *)
+(* the tolerance DocW (seq_nr_offset(a, b, 1024) as a pure function).       *)
+TableFor(w) ==
+    [W |-> w,
+     ge |-> [i \in 1..M |-> OffsetRep(i - 1, FALSE, M, w)],
+     lt |-> [i \in 1..M |-> OffsetRep(i - 1, TRUE, M, w)]]
 Table ==
-    [M |-> M, W |-> W,
-     ge |-> [i \in 1..M |-> OffsetRep(i - 1, FALSE, M, W)],
-     lt |-> [i \in 1..M |-> OffsetRep(i - 1, TRUE, M, W)]]
+    [M |-> M, W |-> W, ge |-> TableFor(W).ge, lt |-> TableFor(W).lt,
+     extra |-> IF DocW # W THEN <<TableFor(DocW)>> ELSE <<>>]
 
 (* ... and concrete cases on a boundary set, every tolerance of the record mode *)
-BV == { x % M : x \in {0, 1, 2, W - 1, W, W + 1, W + 2, H - 1, H, H + 1, M - W - 2, M - W - 1, M - W, M - W + 1,
-                       M - 2, M - 1, 12345, 40000, 54321, 64511} }
-Tols == { t \in {0, 1, 2, 15, 16, 17, 1023, 1024, 1025, 32767, 32768, 65535} : t < M }
+BV == { x % M : x \in {0, 1, 2, 15, 16, 17, DocW - 1, DocW, DocW + 1, DocW + 2, W - 1, W, W + 1, W + 2, H - 1, H, H + 1,
+                       M - W - 2, M - W - 1, M - W, M - W + 1, M - DocW - 2, M - DocW - 1, M - DocW, M - DocW + 1,
+                       M - 18, M - 17, M - 16, M - 2, M - 1, 12345, 40000, 54321} }
+Tols == { t \in {0, 1, 2, 15, 16, 17, 1023, 1024, 1025, 32766, 32767, 32768, 65535} : t < M }
 Cases ==
     { [op |-> "offset", a |-> x, b |-> y, w |-> t, exp |-> Offset(x, y, M, t)] : x \in BV, y \in BV, t \in Tols }
     \cup { [op |-> "sub", a |-> x, b |-> y, w |-> W, exp |-> Offset(x, y, M, W)] : x \in BV, y \in BV }
     \cup { [op |-> "cmp", a |-> x, b |-> y, w |-> W, exp |-> SeqCmp(x, y, M, W)] : x \in BV, y \in BV }
     \cup { [op |-> "add", a |-> x, b |-> k, w |-> W, exp |-> Add(x, k, M)] : x \in BV, k \in BV }
     \cup { [op |-> "subk", a |-> x, b |-> k, w |-> W, exp |-> SeqSubK(x, k, M)] : x \in BV, k \in BV }
+    \cup { [op |-> "tolerance", a |-> 0, b |-> 0, w |-> W, exp |-> W] }
 
 EmitAll ==
     (a = -1 /\ Emit) =>
